@@ -82,6 +82,7 @@ type progRun struct {
 	order  []ethcmn.Address
 	stats  map[string]int
 	ghosts *ghostTracker
+	evSeen int
 }
 
 func newProgRun(c *ProgCase) *progRun {
@@ -295,6 +296,16 @@ func (r *progRun) execMsg(i int, s PStep) *violation {
 	} else {
 		r.stats["consensus-rejected"]++
 	}
+	if os.Getenv("VERIF_C16_TRACE") != "" {
+		ev := r.ref.rec.events
+		if len(ev) > r.evSeen {
+			ev = ev[r.evSeen:]
+		} else {
+			ev = nil
+		}
+		r.evSeen = len(r.ref.rec.events)
+		fmt.Fprintf(os.Stderr, "TRACE %s from=%s to=%s gas=%d val=%s nonce=%d -> err=%v res=%+v events=%v\n", s.Note, s.From[:6], s.To, s.Gas, s.Value, s.Nonce, errR, resR, ev)
+	}
 	if gpA.Gas() != gpR.Gas() {
 		return &violation{"result", "gas-pool", fmt.Sprintf("%s: gas pool left adapter=%d reference=%d", where, gpA.Gas(), gpR.Gas())}
 	}
@@ -413,7 +424,7 @@ func (m *msgGen) next() PStep {
 	s := PStep{K: "msg", Pre: c.Int(0, 1, "pre") == 1, Apply: c.Int(0, 5, "apply") == 0}
 	// sender
 	from := eoaRich
-	switch c.Int(0, 11, "from") {
+	switch c.Int(0, 29, "from") {
 	case 0:
 		from = eoaKeeper
 	case 1:
@@ -427,33 +438,41 @@ func (m *msgGen) next() PStep {
 	}
 	s.From = from.Hex()
 	n := m.r.ref.sdb.GetNonce(from)
-	switch c.Int(0, 11, "noncek") {
+	switch c.Int(0, 23, "noncek") {
 	case 0:
 		if n > 0 {
 			n--
 		}
-	case 1:
+	case 1, 2:
 		n += uint64(c.Int(1, 3, "gap"))
 	}
 	s.Nonce = n
 	s.Price = []string{"1000000000", "1000000000", "1", "0", "3"}[c.Int(0, 4, "price")]
-	s.Value = []string{"0", "0", "0", "1", "1000", "1000000000000000000", "2000000000000000000000000"}[c.Int(0, 6, "value")]
-	if c.Int(0, 24, "smallpool") == 0 {
+	s.Value = []string{"0", "0", "0", "0", "1", "1", "7", "1000", "1000", "1000000000000000000", "1000000000000000000", "2000000000000000000000000"}[c.Int(0, 11, "value")]
+	if c.Int(0, 39, "smallpool") == 0 {
 		s.Pool = uint64(c.Int(20000, 200000, "pool"))
 	}
 	m.g.p.contracts = m.liveContracts()
 	lc := m.g.p.contracts
 	kind := c.Int(0, 99, "kind")
 	switch {
-	case m.first || len(lc) == 0 || kind < 22:
+	case m.first || len(lc) == 0 || kind < 14:
 		nb := 0
 		init := m.g.contract(0, &nb)
 		s.Data = "0x" + ethcmn.Bytes2Hex(init)
-		s.Gas = []uint64{1500000, 1500000, 800000, 300000, 120000, 60000, 53000, 52999}[c.Int(0, 7, "cgas")]
+		s.Gas = []uint64{3000000, 3000000, 3000000, 1500000, 1500000, 800000, 400000, 200000, 100000, 53000, 52999}[c.Int(0, 10, "cgas")]
+		if m.first {
+			// the first contract of a sequence is created reliably
+			s.From, s.Nonce, s.Gas, s.Pool = eoaRich.Hex(), m.r.ref.sdb.GetNonce(eoaRich), 3000000, 0
+			from = eoaRich
+			if len(s.Value) > 4 {
+				s.Value = "5"
+			}
+		}
 		s.Note = "create"
 		// the address this creation will get (when it executes)
 		m.r.known[ethcrypto.CreateAddress(from, m.r.ref.sdb.GetNonce(from))] = nb
-	case kind < 86:
+	case kind < 90:
 		to := lc[c.Int(0, len(lc)-1, "to")]
 		s.To = to.Hex()
 		nb := m.r.known[to]
